@@ -18,7 +18,7 @@ CHECKS = {
  "C04": ("exploration", "complete enumeration of all 2^24 RGB x 16 ordered space pairs (thorough) / dense lattice (quick) through the documented pipeline against a float64 colorimetric reference",
          "Every 8-bit RGB value at alpha 255 for each of the 16 ordered pairs, plus an alpha sweep, is pushed through the README pipeline on the real code and compared per channel with the interval allowed by the encoder law around the float64 reference value.",
          "Reference = standards' curves + matrices derived from declared chromaticities + linear Bradford; tolerance = C02's encoder law plus delta for the float32 pipeline.", "benum", "5/C04"),
- "C10": ("exploration", "complete enumeration of the configuration product (source type x destination type x bounds shape x parallelism x transform x in-place) with a whole-backing-array oracle",
+ "C10": ("exploration", "complete enumeration of the configuration product (source type x destination type x bounds shape x parallelism x transform x in-place) with a whole-backing-array oracle; each transform also as the first library call of a fresh process; in-place runs also on neighbour-dependent pixel data",
          "Every configuration of the stated finite product is executed on the real code and every byte of the destination parent's backing array is compared with the per-pixel definition computed through the standard library's Set; identical for every parallelism and for in-place use by construction of the oracle.",
          "Trusts image/draw's Set/colour-model conversion as the definition of 'the destination colour model's conversion'.", "benum", "5/C10"),
  "C12": ("exploration", "bounded-exhaustive enumeration of white-point pairs/triples on a chromaticity lattice plus near-neighbour pairs against a float64 Bradford reference",
@@ -41,7 +41,7 @@ CHECKS = {
 
 CHECKS.update({
  "C05": ("exploration", "bounded-exhaustive enumeration of header fields and chunk/segment grammars built from typed descriptions, cross-validated by the standard decoders",
-         "Every header field value of the stated sets (complete 14/16-bit fields, walking bits + byte lanes + all values < 2^16 for 31-bit fields in quick; all 2^31-1, 2^24 and 2^28 in thorough), every legal PNG type/depth pair, all chunk/segment sequences up to depth 3 and next-chunk headers at every alignment across the read-buffer boundaries are loaded through the specific loader and autometa and compared with the description; DecodeConfig of image/png, image/jpeg, x/image/webp confirms the generator.",
+         "Every header field value of the stated sets (complete 14/16-bit fields, walking bits + byte lanes + all values < 2^16 for 31-bit fields in quick; all values < 2^24 plus 2^17 around every power of two for PNG, < 2^20 plus neighbourhoods for VP8X, every value of one VP8L field x 48 of the other in thorough; thorough also runs the quick tier built for GOARCH=386), every legal PNG type/depth pair, all chunk/segment sequences up to depth 3 and next-chunk headers at every alignment across the read-buffer boundaries are loaded through the specific loader and autometa and compared with the description; DecodeConfig of image/png, image/jpeg, x/image/webp confirms the generator.",
          "Well-formedness is defined by the generator and confirmed by the standard decoders on the grammar and quick field sets; files the decoder rejects as unsupported are compared with the description only.", "benum", "5/C05"),
  "C06": ("model_checking", "explicit enumeration of all JPEG segment sequences up to a depth over a 21-symbol alphabet, each executed on the real loader and compared with a reference state machine; bounded-exhaustive sizes/orders/damage for PNG, JPEG, WebP",
          "The JPEG ICC reassembly is treated as a state machine: every sequence of <= 5 (quick) / 6 (thorough) segments is executed on jpegmeta.Load and compared step-free with a reference model of chunk bookkeeping (states reached and transitions are reported); payload sizes across every buffer boundary, all chunk orders up to 5 chunks with foreign segments interleaved, 255 chunks, MiB payloads, all name lengths, deflate levels, and every single-byte substitution/truncation of three compressed streams are enumerated.",
@@ -49,13 +49,13 @@ CHECKS.update({
  "C07": ("fault_enumeration", "exhaustive enumeration of end positions x endings (EOF, data+EOF, I/O error, data+error) x delivery x loaders x drain styles; source objects of other dynamic types; deviation-bounded DFS over reader answers incl. errors (thorough)",
          "For every seed every truncation point and every failure position is a separate execution of the real loader followed by draining the returned stream; the bytes and the terminal condition are compared with what the source delivered.",
          "Seeds: one per format variant / parser error branch plus the repository images (every position up to 8 KiB).", "envx", "5/C07"),
- "C08": ("model_checking", "stateless depth-first exploration of io.Reader answer sequences (short reads, data+EOF) with a deviation bound, every trace executed on the real loaders / ICC reader and compared with the all-at-once outcome",
+ "C08": ("model_checking", "stateless depth-first exploration of io.Reader answer sequences (short reads, data+EOF) with a deviation bound, every trace executed on the real loaders / ICC reader and compared with the all-at-once outcome; the explorer first has to pass a self-test on toy consumers of known sensitivity",
          "Each Read call of the source is a choice point; all answer sequences with <= 2 (quick) / 3 (thorough) deviations from FULL plus 16 uniform schedules are executed on fresh loaders; determinism of the harness is asserted by replaying the default schedule twice and by failing hard on replay divergence.",
          "Answer alphabet {FULL, FULL+EOF, SHORT(1,2,3,n/2,n-1)}; (0,nil) reads not generated.", "envx", "5/C08"),
  "C09": ("exploration", "deviation-bounded exhaustive mutation (every 32/16-bit window x boundary values, every single-byte substitution, every truncation, pairs of annotated fields) executed in resource-limited worker processes with allocation, CPU-time and liveness oracles",
          "Every single-field deviation from each seed (no field annotation needed: every window at every offset is treated as a field), every byte substitution and truncation, plus crafted legal amplifying shapes, is run through all entry points; a panic reaching the harness, heap allocation beyond 1 MiB + 8192 x input, CPU beyond 2 s + 50 us x input, a dead or stalled worker are violations.",
          "Budgets are fixed linear functions chosen far above correct behaviour; fuzzing clauses of the quantifier are not used (sampling).", "benum", "5/C09"),
- "C11": ("model_checking", "controlled scheduler over overlay-instrumented sources: stateless depth-first search over goroutine interleavings with iterative preemption bounding and happens-before state caching (all interleavings for the 2-goroutine first-use scenarios and wherever a pass is never limited by the bound), vector-clock happens-before race detection and per-call sequential-value oracle on every execution; free-running -race cross-check",
+ "C11": ("model_checking", "controlled scheduler over overlay-instrumented sources: stateless depth-first search over goroutine interleavings with iterative preemption bounding and happens-before state caching (all interleavings for the 2-goroutine first-use scenarios and wherever a pass is never limited by the bound), vector-clock happens-before race detection and per-call sequential-value oracle on every execution; sync.Pool modelled as LIFO reuse; the explorer first has to give the known verdict on 9 litmus programs with and without state caching; free-running -race cross-check (incl. 16 and 64 goroutines at first use, GOMAXPROCS 16/4/1)",
          "The real code, instrumented at check time (sync operations, go statements, package-level variables written outside init, captured variables, pixel accesses), is executed under a scheduler that enumerates schedules; every execution is checked for happens-before races per the Go memory model and for value equality with the sequential result; fresh package state per execution makes every execution a 'very first use'.",
          "SC interleavings only (weak memory via DRF-SC); <= 4 scenario goroutines plus up to 11 library workers; state caching assumes goroutines communicate only through hooked operations (the same assumption the race oracle makes) and merges states on a 128-bit hash; accesses the rewriter cannot see are covered by the supplementary go build -race pass of the same scenarios.", "xsched", "5/C11"),
  "C16": ("exploration", "bounded-exhaustive enumeration of header bit patterns (walking ones/zeros over all 1,024 bits on five backgrounds, every byte lane, all version byte pairs, date components, flag combinations) against an independent decoder written from the ICC.1 field table",
